@@ -421,7 +421,8 @@ class LayoutSegment:
             lines = []
             if pad_left:
                 lines.append((1, spos - 1))
-            lines.append((end - start - pad_left - pad_right, spos, epos))
+            if end - start - pad_left - pad_right:  # nothing remains between the halves of wide characters
+                lines.append((end - start - pad_left - pad_right, spos, epos))
             if pad_right:
                 lines.append((1, epos))
             return lines
